@@ -59,7 +59,7 @@ def run(module, cfg, workers=8, on_emit=None, timeout=3600, extra=(), env=None,
                 f.write(text)
         else:
             mod_path = os.path.join(SPEC, module + ".tla")
-        cmd = ["java", "-XX:+UseParallelGC", "-Xmx" + heap, "-DTLA-Library=" + SPEC,
+        cmd = ["java", "-XX:+UseParallelGC", "-Xss32m", "-Xmx" + heap, "-DTLA-Library=" + SPEC,
                "-cp", JAR + ":" + DEPS, "tlc2.TLC",
                "-workers", str(workers), "-metadir", os.path.join(wd, "meta"),
                "-noGenerateSpecTE", "-config", cfg_path]
